@@ -7,7 +7,7 @@ from ..report import Check
 from ..emit import collect_sites, label_def
 from ..consteval import TOP, Pattern, FnEval
 from ..tables import helper_rows
-from ..isa import ISA
+from ..isa import ISA, ACCESS_KINDS
 from ..linnorm import compare_upper_bound, lin, NotLinear
 from ..cfg import CFG, ReachingDefs
 
@@ -68,6 +68,8 @@ def run(repo: Repo, chk: Check):
     chk.rule("R09.b", "no Python spelling can be printed: bool is normalised before the int branch of "
                       "IC10Operand.to_string, None cannot reach the str() fall-back, handle_const maps no constant to ''", floor=3)
     chk.rule("R09.c", "the version note is appended only under a linear bound len(line)+len(note) <= 90 and starts with ' #'", floor=1)
+    chk.rule("R09.e", "at every device / slot / batch / stack access site the operands have the kinds the instruction takes, in its order "
+                      "(device or prefab hash, name hash, slot index, logic/slot type, batch mode, address, value)", floor=14)
     chk.rule("R09.d", "every float format in IC10Operand.to_string carries >= 16 significant digits", floor=2)
 
     check_isa_sync(repo, chk)
@@ -133,6 +135,7 @@ def run(repo: Repo, chk: Check):
     r09b(repo, chk)
     r09c(repo, chk)
     r09d(repo, chk)
+    chk.guarded(r09e, repo, chk, "R09.e")
 
 
 # ---------------------------------------------------------------------- R09.b
@@ -388,3 +391,57 @@ def r09d(repo: Repo, chk: Check):
                 judge_prec(f"types:to_string:computed precision", desc, ok, f"{m.path}:{node.lineno}")
     if found < 2:
         raise AnalysisError(f"to_string: expected two float formats, recognised {found}")
+
+
+# ---------------------------------------------------------------------- R09.e
+def operand_kind(e, fn):
+    """Kind of an operand expression at an access site, from what it names."""
+    t = norm(e)
+    if isinstance(e, ast.Constant):
+        if e.value == "db":
+            return "device"
+        if isinstance(e.value, (int, float)):
+            return "number"
+        return "const"
+    if isinstance(e, ast.BoolOp) and isinstance(e.op, ast.Or):
+        ks = {operand_kind(v, fn) for v in e.values}
+        return ks.pop() if len(ks) == 1 else "?"
+    last = t.split(".")[-1]
+    table = {"_id": "device", "Id": "device", "_device_hash": "deviceHash", "_prefab_hash": "deviceHash", "_name_hash": "nameHash",
+             "_logic_type": "logicType", "_slot_type": "slotType", "_slot_index": "slotIndex", "batch_mode": "batchMode", "_batch_mode": "batchMode",
+             "_addr": "address", "value": "value"}
+    if last in table:
+        return table[last]
+    params = [a.arg for a in fn.args.args] if fn is not None else []
+    if isinstance(e, ast.Name) and e.id in params:
+        return {"value": "value", "batch_mode": "batchMode", "index": "address", "addr": "address"}.get(e.id, "param:" + e.id)
+    return "?"
+
+
+def r09e(repo: Repo, chk: Check, R="R09.e"):
+    n = 0
+    for s in collect_sites(repo, ["types", "generate_code"]):
+        ops = s.opcodes
+        if ops is TOP or len(ops) != 1:
+            continue
+        op = next(iter(ops))
+        if op not in ACCESS_KINDS or s.n_inputs is None:
+            continue
+        fn = s.fn
+        # the enclosing function for parameter names: lambdas inherit the method's parameters
+        kinds = [operand_kind(e, fn) for e in s.input_exprs]
+        want = ACCESS_KINDS[op]
+        if s.mod.name == "generate_code":
+            # calling convention: put db <slot> <value> / get <r> db <slot>: kinds by position, device must be "db"
+            ok = len(kinds) == len(want) and kinds[0] == "device"
+            detail = kinds
+        else:
+            ok = kinds == want
+            detail = kinds
+        n += 1
+        chk.saw(s.mod.name, s.qual)
+        chk.judge(R, f"{s.mod.name}:{s.qual}:{op} operands", ok,
+                  f"'{op}' takes ({', '.join(want)}) after its output register; this site passes ({', '.join(detail)}): {norm(s.call)[:100]}",
+                  {"expected": want, "got": detail}, s.where())
+    if n < 14:
+        raise AnalysisError(f"{R}: only {n} device/slot/batch/stack access sites found")
